@@ -2,11 +2,12 @@ SPECIFICATION Spec
 CONSTANTS
   Seeds <- MCSeeds
   ScenariosOf <- MCScenariosOf
+  QuietWins = TRUE
   Cuts = 4
   Fams = {"faults", "args", "pipe"}
   MaxFiles = 3
   FaultKinds <- AllKinds
   NoMsgs <- OnlyFalse
   ThreadSet = {1, 4}
-  MaxPipeFiles = 2
+  MaxPipeFiles = 3
 INVARIANTS Sane Partition Function Monotonic Locality Contracts Emitted
